@@ -18,6 +18,10 @@ GEN_AUDIT += ["Dashu.Audit.GenFloatOps"]
 # mirrored rational/src/round.rs with the twelve RBig / Relaxed entry points
 GEN_PROPS += ["Dashu.Props.C10Coarse", "Dashu.Props.C10Ratio"]
 GEN_AUDIT += ["Dashu.Audit.C10Coarse", "Dashu.Audit.C10Ratio"]
+# round 5: IEEE-754 binary32 round-to-nearest-even as a concrete function on the reals; the facts (R), (B), (C), (G) that
+# C10Coarse / C10Est carry as hypotheses are proved from its definition and the two estimator theorems re-stated without them
+GEN_PROPS += ["Dashu.Props.C10F32"]
+GEN_AUDIT += ["Dashu.Audit.C10F32"]
 
 BASES = [2, 3, 10, 16, 36]
 MODES = "ZAUDEH"
@@ -279,14 +283,186 @@ def gen_rational(rng, tier):
             n *= g; d *= g
         yield Case(rng.choice(QOPS), [hx(n), hx(d)])
 
+# ----------------------------------------------------------------------------- the IEEE assumption, one operation per case
+
+LIT_SRC = ["0.999", "1.001", "0.301029995663981195213738894724493027", "1.5849625", "1.5849626", "256.0", "4.", "2.", "1.", "0."]
+
+def f32bits(m, e):
+    """bit pattern of m * 2^(e-23), 2^23 <= m < 2^24, normal range"""
+    assert (1 << 23) <= m < (1 << 24) and 1 <= e + 127 <= 254
+    return ((e + 127) << 23) | (m - (1 << 23))
+
+def rand_m(rng):
+    r = rng.random()
+    if r < 0.15:
+        return rng.choice([1 << 23, (1 << 23) + 1, (1 << 24) - 1, (1 << 24) - 2, (1 << 23) + (1 << 22), (1 << 23) + (1 << 22) + 1])
+    if r < 0.3:
+        # few significant bits (products / sums stay exact or become exact ties)
+        b = rng.randrange(1, 13)
+        return (1 << 23) | (rng.getrandbits(b) << (23 - b))
+    return (1 << 23) | rng.getrandbits(23)
+
+def sbytes(t):
+    return "s:" + t.encode().hex()
+
+def gen_f32(rng, tier):
+    """`s32.*`: single binary32 operations of the machine against the integer-arithmetic model of round-to-nearest-even.
+    Classes: random significands / few-bit significands / binade ends; exponent gaps 0..26 for + and - (alignment shifts past the
+    24th bit: exact, tie, just above / below a tie); products and quotients of few-bit and full significands; `n as f32` for n of
+    EVERY bit length 1..127 with 2^j, 2^j +- 1, ties (2^24+1)<<j, (2^24+3)<<j, near-ties and random low bits, plus the machine
+    extremes of usize; the decimal literals of the source and random literals; next_up / next_down at binade ends; log2f on
+    24-bit integers; dashu's log2_bounds on every size class (power of two, < 2^24, 25..128 bits, heap values with a power-of-two
+    or all-ones highest double word, up to 2^20 words)."""
+    n = 400 if tier == "quick" else 40000
+    for _ in range(n):
+        e1 = rng.randrange(-20, 41)
+        gap = rng.choice([0, 1, 2, 11, 12, 22, 23, 24, 25, 26, rng.randrange(0, 30)])
+        a = (rand_m(rng), e1)
+        b = (rand_m(rng), e1 - gap)
+        if rng.random() < 0.3:
+            # b = exactly half / quarter of a's last place (+- one unit of b): ties and near-ties
+            b = (rng.choice([1 << 23, (1 << 23) + 1, (1 << 24) - 1, 3 << 22]), e1 - rng.choice([24, 24, 25, 23]))
+        A, Bb = f32bits(*a), f32bits(*b)
+        op = rng.choice(["s32.add", "s32.add", "s32.sub", "s32.mul", "s32.div"])
+        if op in ("s32.mul", "s32.div"):
+            b = (b[0], rng.randrange(-20, 21)); Bb = f32bits(*b)
+        if op == "s32.sub" and (a[1], a[0]) < (b[1], b[0]):
+            A, Bb = Bb, A
+        if op == "s32.sub" and A != Bb and gap == 0 and rng.random() < 0.5:
+            continue            # massive cancellation can reach the subnormal range only below 2^-126: not here, but keep the stream short
+        yield Case(op, [dec(A), dec(Bb)])
+    # conversions: every bit length
+    for j in range(0, 127):
+        pats = [1 << j, (1 << j) + 1, (1 << (j + 1)) - 1]
+        if j >= 25:
+            sh = j - 24
+            pats += [((1 << 24) + 1) << sh, ((1 << 24) + 3) << sh, (((1 << 24) + 1) << sh) + 1, (((1 << 24) + 1) << sh) - 1,
+                     (((1 << 24) + 3) << sh) - 1, (((1 << 25) - 1) << (sh - 1)) if sh >= 1 else 1, (1 << (j + 1)) - (1 << (j - 24)),
+                     (1 << (j + 1)) - (1 << (j - 24)) - 1]
+        cnt = 2 if tier == "quick" else 40
+        pats += [(1 << j) | rng.getrandbits(j) for _ in range(cnt)] if j else []
+        for v in pats:
+            if 0 < v < (1 << 127):
+                yield Case("s32.ofnat", [hx(v)])
+    for v in [0, 1, 63, 64, 65, 127, 128, (1 << 24) - 1, 1 << 24, (1 << 24) + 1, (1 << 24) + 2, (1 << 24) + 3, 1 << 31, (1 << 32) - 1,
+              1 << 32, 1 << 63, (1 << 64) - 1] + [(1 << 32) + k for k in range(1, 130, 7)] + [(1 << 64) - 1 - k for k in range(0, 131, 5)]:
+        yield Case("s32.ofnat", [hx(v)])
+    for t in LIT_SRC:
+        yield Case("s32.dec", [sbytes(t)])
+    n = 150 if tier == "quick" else 20000
+    for _ in range(n):
+        ip = str(rng.randrange(0, rng.choice([2, 10, 1000, 10 ** 9])))
+        fp = "".join(rng.choice("0123456789") for _ in range(rng.choice([0, 1, 3, 7, 9, 20, 40])))
+        t = ip + ("." + fp if fp else "")
+        if rng.random() < 0.3:
+            t += "e%d" % rng.randrange(-8, 12)
+        if int((ip + fp) or "0") == 0:
+            continue
+        if len(ip) < 2 and fp[:5] == "00000":
+            continue
+        yield Case("s32.dec", [sbytes(t)])
+        m = (rand_m(rng), rng.randrange(-20, 41))
+        yield Case(rng.choice(["s32.nextup", "s32.nextdown"]), [dec(f32bits(*m))])
+    n = 300 if tier == "quick" else 60000
+    for _ in range(n):
+        v = rng.choice([rng.randrange(2, 1 << 24), rng.randrange(1 << 23, (1 << 24) + 1), rng.randrange(2, 70)])
+        e = v.bit_length() - 1
+        yield Case("s32.log2", [dec(f32bits(v << (23 - e), e))])
+    # dashu's own log2_bounds
+    def l2b_values():
+        for j in list(range(0, 140)) + [191, 192, 193, 255, 256, 257, 1000, 4096]:
+            yield 1 << j
+            if j > 1:
+                yield (1 << j) + 1; yield (1 << j) - 1
+        cnt = 200 if tier == "quick" else 30000
+        for _ in range(cnt):
+            bits = rng.choice([rng.randrange(2, 25), rng.randrange(25, 129), rng.randrange(129, 400), rng.choice([640, 2000, 20000])])
+            v = (1 << (bits - 1)) | rng.getrandbits(bits - 1)
+            r = rng.random()
+            if r < 0.15 and bits > 130:
+                # highest double word a power of two / all ones (slack of the ADJUST factor)
+                w = (bits + 63) // 64
+                hi = rng.choice([1 << 64, 1 << 127, (1 << 128) - 1, (1 << 64) + 1, 3 << 100])
+                v = (hi << ((w - 2) * 64)) | rng.getrandbits((w - 2) * 64)
+            elif r < 0.3 and bits > 24:
+                sh = bits - 24
+                v = (rng.choice([1 << 23, (1 << 24) - 1, rng.randrange(1 << 23, 1 << 24)]) << sh) | rng.choice([0, 1, (1 << sh) - 1, rng.getrandbits(sh)])
+            yield v
+        # many words: rem_bits as f32 up to and beyond 2^24
+        for w in ([4097, 262143 + 2] if tier == "quick" else [4097, 65537, 262143 + 2, 262144 + 2, 262145 + 2, 524289 + 2, 1048577]):
+            yield (rng.choice([1 << 64, (1 << 128) - 1, rng.getrandbits(128) | (1 << 127)]) << ((w - 2) * 64)) | 1
+    for v in l2b_values():
+        if v > 0:
+            yield Case("s32.l2b", [hx(v)])
+    # (LIBM): libm's log2f on every integer of a range against a rigorous integer enclosure of log2 (both sides sweep and
+    # report a checksum of all bit patterns + the number of integers where the one-ulp enclosure is not confirmed).
+    # thorough: ALL integers 1 .. 2^24 (the whole domain on which log2_bounds calls log2f), in 64 chunks
+    K = 1 << 24
+    if tier == "quick":
+        a = rng.randrange(1 << 12, K - (1 << 12))
+        chunks = [(1, 1 << 11), ((1 << 23) - 512, (1 << 23) + 512), (K - 1024, K + 1), (a, a + 2048)]
+    else:
+        step = K >> 6
+        chunks = [(max(1, i * step), (i + 1) * step + (1 if i == 63 else 0)) for i in range(64)]
+    for lo, hi in chunks:
+        yield Case("s32.sweep", [dec(lo), dec(hi)])
+
+# ----------------------------------------------------------------------------- E1: machine extremes of isize / usize parameters
+
+IMIN = -(1 << 63)
+UMAX = (1 << 64) - 1
+
+def gen_extreme(rng, tier):
+    """ROUND4 addendum E1.  Exponents (isize) at 2^20.., 2^31, 2^32-1, 2^32, 2^32+k, 2^62, isize::MAX-k and their negatives down to
+    isize::MIN+k (k = 0..130) through trunc/floor/ceil/round/fract/split_at_point/Repr::to_int (specification evaluated
+    symbolically by Driver/FloatX.lean: the value is an integer, resp. of magnitude < 1/B); FBig::to_int only down to -(2^20+k)
+    (its `round_fract` debug assertion computes B^(-exponent)).  Precisions (usize) of the context and of with_precision at
+    2^31, 2^32-1, 2^32, 2^32+k, 2^63, usize::MAX-k."""
+    ks = [0, 1, 2, 63, 64, 65, 127, 128, 129] if tier == "quick" else list(range(0, 131))
+    neg = [-(1 << 20) - k for k in ks[:4]] + [-(1 << 31), -(1 << 32) + 1, -(1 << 32), -(1 << 62)] + [-(1 << 32) - k for k in ks[1:]] + \
+          [IMIN + k for k in ks]
+    pos = [(1 << 20) + 1, 1 << 31, (1 << 32) - 1, 1 << 32, 1 << 62] + [(1 << 32) + k for k in ks[1:]] + [(1 << 63) - 1 - k for k in ks]
+    ops_neg = ["f.trunc", "f.floor", "f.ceil", "f.round", "f.fract", "f.split", "f.repr_to_int"]
+    ops_pos = ["f.trunc", "f.floor", "f.ceil", "f.round", "f.fract", "f.split"]
+    rep = 1 if tier == "quick" else 4
+    for e in neg + pos:
+        for _ in range(rep):
+            for op in (ops_neg if e < 0 else ops_pos):
+                if tier == "quick" and rng.random() < 0.5 and e not in (IMIN, IMIN + 1, (1 << 63) - 1):
+                    continue
+                B = rng.choice(BASES); m = rng.choice(MODES)
+                p = rng.choice([0, 1, 5, 40])
+                d = rng.choice([1, 1, 2, 30]) if p == 0 else rng.choice([1, min(2, p), p])
+                sg = rand_sig(rng, B, d) * rng.choice([1, -1])
+                yield Case(op, [fenc(B, sg, e, p, m)], nontrivial=True)
+    for k in ks[:5]:
+        for m in MODES:
+            B = rng.choice(BASES)
+            yield Case("f.to_int", [fenc(B, rand_sig(rng, B, rng.choice([1, 3])) * rng.choice([1, -1]), -(1 << 20) - k, rng.choice([0, 5]), m)],
+                       nontrivial=True)
+    precs = [1 << 31, (1 << 32) - 1, 1 << 32, 1 << 63] + [(1 << 32) + k for k in ks[1:]] + [UMAX - k for k in ks]
+    allops = ["f.trunc", "f.floor", "f.ceil", "f.round", "f.fract", "f.split", "f.to_int", "f.repr_to_int"]
+    for p in precs:
+        for _ in range(rep):
+            B = rng.choice(BASES); m = rng.choice(MODES)
+            d = rng.choice([1, 3, 12])
+            sg = rand_sig(rng, B, d) * rng.choice([1, -1])
+            e = rng.choice([0, 3, -1, -d, -d - 1, -d - 2, -d - 3, -d // 2 - 1, -40])
+            yield Case(rng.choice(allops), [fenc(B, sg, e, p, m)], nontrivial=True)
+            # with_precision: to an extreme precision (no rounding), and from an extreme context precision down to few digits
+            yield Case("f.with_precision", [fenc(B, sg, e, rng.choice([0, d, d + 5]), m), dec(p)], nontrivial=True)
+            yield Case("f.with_precision", [fenc(B, sg, e, p, m), dec(rng.choice([0, 1, max(1, d - 1), d, d + 1, p, UMAX]))], nontrivial=True)
+
 def generate(rng, tier):
     yield from gen_primitives(rng, tier)
+    yield from gen_f32(rng, tier)
+    yield from gen_extreme(rng, tier)
     yield from gen_coarse_directed(rng, tier)
     yield from gen_floats(rng, tier)
     yield from gen_rational(rng, tier)
 
 def nontrivial(c):
-    if c.op == "r.fracth":
+    if c.op == "r.fracth" or c.op.startswith("s32."):
         return True
     if c.op.startswith("r."):
         return c.args[3] != "0"
@@ -308,7 +484,17 @@ RULE = ("primitives: the complete grid integer {-2..2} x fraction {0,+-1,+-(h-1)
         "of two, both) so that RBig and Relaxed hold different representations; every rational op runs both entry points, "
         "q.fract_raw / q.split_raw print the fraction as each type holds it. Coarse-test probes (r.fracth, |fract| = B^k div 2 + "
         "c*(B^k >> t) + e built on both sides): k in {1200 .. 10^6} inside the proved region, k = 2^24-1, 2^24 at its edge and "
-        "k = 2^24+1, 2^24+3, 2^25+3 beyond it, with ties, ties+-1, near-halves (2^-8..2^-24) and far fractions. Non-trivial := non-zero low part / fractional digits "
+        "k = 2^24+1, 2^24+3, 2^25+3 beyond it, with ties, ties+-1, near-halves (2^-8..2^-24) and far fractions. "
+        "IEEE assumption (s32.*, one machine f32 operation per case against the integer soft-float model): + - * / on random / few-bit / "
+        "binade-end significands with exponent gaps 0..29 incl. exact ties and ties+-1; n as f32 for n of EVERY bit length 1..127 (2^j, "
+        "2^j+-1, (2^24+1)<<j, (2^24+3)<<j and their neighbours, random) and the usize extremes; the decimal literals of the source "
+        "(0.999, 1.001, LOG10_2, ...) and random literals; next_up / next_down; log2f on 24-bit integers; dashu's UBig::log2_bounds on "
+        "every size class (2^j, 2^j+-1 for j <= 4096, < 2^24, 25..128 bits, heap values with power-of-two / all-ones highest double "
+        "word, up to 2^20 words); s32.sweep = libm log2f on EVERY integer of a range against a rigorous integer enclosure of log2 "
+        "(quick: 4 windows of 1-2 k integers; thorough: ALL of 1..2^24 in 64 chunks). Machine extremes (addendum E1): exponents "
+        "+-2^20.., +-2^31, +-(2^32-1), +-2^32, +-(2^32+k), +-2^62, isize::MAX-k, isize::MIN+k (k = 0..130, quick 9 values) through "
+        "trunc/floor/ceil/round/fract/split_at_point/Repr::to_int (FBig::to_int down to -(2^20+k)); context precision and "
+        "with_precision argument at 2^31, 2^32-1, 2^32, 2^32+k, 2^63, usize::MAX-k. Non-trivial := non-zero low part / fractional digits "
         "present; distinct := distinct (op,args).")
 REFINED = ["Round::round_low_part x6 (regenerated, Props/GenRound)", "Round::round_fract", "Round::round_ratio",
            "utils::split_digits / split_digits_ref (base-10, power-of-two and generic paths)",
@@ -323,19 +509,40 @@ REFINED = ["Round::round_low_part x6 (regenerated, Props/GenRound)", "Round::rou
            "split_at_point proved to keep the type invariant without reduction",
            "round_fract's coarse f32 test (closure `test`): bit-exact Float32 replica `coarseF32` executed by the driver in "
            "r.fract / r.fracth in place of the exact comparison; proved sound over the reals on the explicit region "
-           "2 <= B < 2^64, 0 < |fract| < B^k, k <= 2^24 (Props/C10Coarse)"]
-FRONTIER = ["round_fract coarse test for precision > 2^24 digits (`precision as f32` is rounded): outside the proved region, driven on the "
-            "real code against the exact comparison (k = 2^24+1, 2^24+3, 2^25+3, all bases, ties / near-halves / far fractions); "
-            "inside the region the proof rests on the f32 assumptions (R) relative error <= 2^-24 per operation, (E) log2_bounds "
-            "encloses log2, (S-structure) enclosure of the highest double word; FBig ops / repr_round still run the model with "
-            "the exact comparison (sound by the same theorem; the replica is used in the r.* primitives)",
-            "f32 estimates digits_ub / smaller_than_one: parameters with enclosure hypotheses. Proved: the "
-            "hypotheses follow from (A) log2 n <= ub, (B) monotone f32 rounding fixing small integers, (C) two constants on the safe "
-            "side (Props/C10Est); (A) for the no_std table estimator follows from builder-nt's integer theorems with no libm "
-            "assumption (Props/C10EstNoStd); the estimate is not observable through trunc/fract/split/floor/ceil/round since "
-            "/repo 0ac7547 (theorems estimate_unobservable, estimators_agree). Still "
-            "assumed: IEEE-754 facts (B), the grid fact (G) for n >= 2^24, the numeric facts (C), log2f within one ulp (std path); "
-            "the driver's bit-exact replica is checked against the enclosure on every operand"]
+           "2 <= B < 2^64, 0 < |fract| < B^k, k <= 2^24 (Props/C10Coarse)",
+           "IEEE-754 binary32 arithmetic of the estimators: `rne32` (round-to-nearest-even, 24 bits) defined on the reals, its facts "
+           "(relative error, monotone, small integers / representables fixed, the source literals 0.999 / 1.001 / LOG10_2 / 1 -+ 2 EPSILON, "
+           "the next_up grid fact) PROVED from the definition; executable integer replica Model/Float/SoftF32.lean proved to denote "
+           "rne32 for all operands and executed by the driver in every coarse test beside the compiled Float32 (and against Rust's "
+           "f32 through s32.*) (Props/C10F32)",
+           "log2_bounds upper estimate of the std path for every inline significand (`log2UbStd`: power-of-two / <= 24 bit / shifted "
+           "branches, each conversion, `shifted + 1.`, `est + shift`, next_up an IEEE operation): proved an upper bound of log2 n from "
+           "the libm hypothesis alone (Props/C10F32.log2_ub_std_sound, digits_ub_inline_sound); dashu's UBig::log2_bounds compared "
+           "bit for bit with the replica (s32.l2b)",
+           "TypedReprRef::log2_bounds as a whole (`log2LbModel` / `log2UbModel`: std u128 routine incl. next_down side, "
+           "log2_bounds_large with highest double word, `rem_bits as f32`, the exact factors 1 -+ ADJUST): enclosure (E) and slack (S) "
+           "proved from (LIBM) alone for operands up to 2^30 bits (Proofs/Float/{Log2Lb,Log2Large}.lean, "
+           "Props/C10F32.log2_bounds_enclose, coarse_test_sound_libm)"]
+FRONTIER = ["round_fract coarse test for precision > 2^24 digits (`precision as f32` rounds): no theorem. Reason: with relative-error "
+            "reasoning the budget is exactly exhausted at first order - the ADJUST factor of log2_bounds_large gives 4u, the two "
+            "roundings inside it, the sum `lb + 0.999` and the product `b_ub * k` take u each, so the additional rounding of k (u) is "
+            "not covered; a proof needs ulp-level (absolute error per binade) analysis of all five operations. Driven on the real code "
+            "against the exact comparison at k = 2^24+1, 2^24+3, 2^25+3 (all bases, ties / near-halves / far fractions) with the "
+            "soft-float replica beside it; FBig ops / repr_round run the model with the exact comparison (sound by the theorem for "
+            "k <= 2^24; the replica is used in the r.* primitives)",
+            "libm's log2f (kept as hypothesis, cannot be carried by a theorem: glibc code is outside the model): (LIBM) = Log2fSound: on "
+            "the integers 2..2^24, 0 <= next_down(log2f m) <= log2 m <= next_up(log2f m), and log2f m a binary32 number of [16,32) "
+            "for 2^23 <= m <= 2^24 (satisfiable: the correctly rounded logarithm meets it, libm_hypothesis_satisfiable). From (LIBM) "
+            "ALONE PROVED: the enclosure (E) and the ADJUST slack (S) of log2_bounds for every operand of at most 2^30 bits "
+            "(log2_bounds_enclose; inline values by the std u128 routine, heap values by log2_bounds_large), hence "
+            "coarse_test_sound_libm (the coarse test of round_fract decides as the exact comparison on its whole region) and "
+            "digits_ub_sound_libm (digits <= digits_ub for every base held in a word and every significand up to 2^30 bits, with "
+            "log2_bounds of the significand and of the base = their models). The thorough tier checks (LIBM) on ALL 2^24 integers of "
+            "this machine's libm against an integer-arithmetic enclosure (s32.sweep), the quick tier on samples. Not composed: "
+            "digits_lb (lower estimate) with the same models; the no_std table estimator has its own libm-free theorem "
+            "(Props/C10EstNoStd)",
+            "machine integers: exponents / precisions are unbounded Int / Nat in the model; isize / usize overflow is outside every "
+            "theorem and is covered by the E1 generator only (finding: exponent isize::MIN panics in builds with overflow checks)"]
 THEOREMS = ["Dashu.Props.C10." + t for t in (
     "round_fract_follows_mode round_fract_estimate_irrelevant round_ratio_follows_mode round_fract_contract digit_len_spec "
     "split_digits_all_paths shl_digits_all_paths shr_digits_all_paths repr_new_value_normalized repr_round_contract "
@@ -351,7 +558,15 @@ THEOREMS = ["Dashu.Props.C10." + t for t in (
     "Dashu.Props.C10Ratio.repr_split_at_point_eq", "Dashu.Props.C10Ratio.rbig_entry_points",
     "Dashu.Props.C10Ratio.relaxed_entry_points",
     "Dashu.Props.GenRound.zero_correct", "Dashu.Props.GenRound.away_correct", "Dashu.Props.GenRound.up_correct",
-    "Dashu.Props.GenRound.down_correct", "Dashu.Props.GenRound.half_even_correct", "Dashu.Props.GenRound.half_away_correct"]
+    "Dashu.Props.GenRound.down_correct", "Dashu.Props.GenRound.half_even_correct", "Dashu.Props.GenRound.half_away_correct"] + [
+    "Dashu.Props.C10F32." + t for t in (
+    "rne_relative_error rne_monotone rne_fixes_small_naturals rne_fixes_representable literal_0_999 literal_1_001 "
+    "literal_LOG10_2 LOG10_2_safe adjust_factors_exact normal_range next_up_grid_fact coarseIEEE_eq coarse_test_sound_ieee "
+    "round_fract_coarse_irrelevant_ieee digits_ub_sound_ieee dub_sound_ieee soft_rne_is_rne32 soft_ops_are_rne32 "
+    "soft_div_sub_are_rne32 Exhaustive.small_integers_exact Exhaustive.integers_around_2_24 Exhaustive.ties_every_binade "
+    "Exhaustive.source_literals Exhaustive.next_up_down_all_binades Exhaustive.bits_roundtrip log2_ub_std_sound "
+    "digits_ub_inline_sound log2_bounds_enclose log2_bounds_sound_libm coarse_test_sound_libm libm_hypothesis_satisfiable "
+    "digits_ub_sound_libm").split()]
 EXPLANATION = ("Lean theorems, for every base >= 2, every precision and all integers: the regenerated six mode tables composed with the "
                "exact half comparison (round_fract, round_ratio) return the adjustment the mode's definition names; repr_round / "
                "with_precision satisfy the rounding contract over Rat; trunc+fract = x, split_at_point = (trunc, fract) and "
@@ -360,24 +575,31 @@ EXPLANATION = ("Lean theorems, for every base >= 2, every precision and all inte
                "0.0099 at 2 digits rounded to 1); the mirrored Repr::{split_at_point,ceil,floor,trunc,fract,round} of rational/src/round.rs "
                "and the twelve RBig/Relaxed entry points name the right neighbour, x = trunc + fract, and fract keeps the type "
                "invariant unreduced; the coarse f32 test of round_fract decides as the exact comparison for every precision up to "
-               "2^24 digits (no bound of the order 10^4 is needed: log2_bounds_large's ADJUST factor pays for the roundings). Model tied to "
-               "/repo by the regenerated tables and by differential execution.")
-ASSUMPTIONS = ["round_fract coarse test (Props/C10Coarse): (R) every f32 + / * is a rounding with relative error <= 2^-24 (IEEE-754 "
-               "round-to-nearest, normal range), (E) 0 <= lb <= log2 n <= ub for log2_bounds, (S) for operands >= 2^128 the highest "
-               "double word's bounds enclose its log2 (the ADJUST slack is then derived), (C) 0.999f32 = 16760439/2^24, "
-               "1.001f32 = 8396997/2^23; region k <= 2^24",
-               "f32 digit estimate: digits <= digits_ub is PROVED (Props/C10Est, over the reals) from: (A) log2f at most one ulp too small "
-               "(log2 x <= next_up(log2f x); for n >= 2^24 plus the IEEE grid fact next_up(fl(est+s)) >= next_up(est)+s), (B) the single "
-               "f32 * or / is a monotone rounding fixing integers <= 2^24, (C) LOG10_2 >= log10 2 and 0 < log2_bounds(B).0 <= log2 B; "
-               "(A)-(C) themselves are assumptions about IEEE binary32 / libm, and the driver additionally checks the resulting "
-               "enclosure on every driven operand",
-               "IBig/UBig kernels (mul, div_rem, pow, shifts) at their specification (C01/C02)"]
+               "2^24 digits (no bound of the order 10^4 is needed: log2_bounds_large's ADJUST factor pays for the roundings) - stated for the "
+               "concrete IEEE rounding function rne32 whose relative-error / monotonicity / exactness facts and the source's f32 literals are "
+               "proved (Props/C10F32), so the f32 side rests only on 'the machine operation is rne32 of the exact result' (compared per "
+               "case through an integer soft-float replica proved equal to rne32) and on libm's log2f being within one ulp (checked on all "
+               "2^24 integers in the thorough tier). Model tied to /repo by the regenerated tables and by differential execution.")
+ASSUMPTIONS = ["(IEEE) the machine's f32 `+ - * /`, integer->f32 conversion and the compiler's decimal->f32 literal conversion return "
+               "rne32 (round to nearest, ties to even, 24-bit significand; IEEE-754 4.3.1 / 5.4.1 / 5.12.2) of the exact result; no "
+               "overflow / subnormal occurs (quantities are 0 or in [2^-1, 2^32]; Props/C10F32.normal_range). Every property of "
+               "rne32 that the estimator theorems use is PROVED (Props/C10F32); (IEEE) itself is compared on every driven coarse "
+               "test and on the s32.* cases against the integer soft-float model that is proved to denote rne32",
+               "(LIBM) libm log2f: 0 <= next_down(log2f m) <= log2 m <= next_up(log2f m) for the integers 2..2^24, value a binary32 "
+               "number of [16,32) on [2^23, 2^24] (Log2fSound; the only f32 hypothesis of coarse_test_sound_libm / "
+               "log2_bounds_enclose / digits_ub_inline_sound); checked exhaustively on this machine in the thorough tier (s32.sweep); "
+               "the driver additionally checks digits_lb <= digits <= digits_ub on every operand",
+               "round_fract coarse test: region k <= 2^24 (beyond it driven only)",
+               "IBig/UBig kernels (mul, div_rem, pow, shifts) at their specification (C01/C02)",
+               "exponent / precision arithmetic over unbounded integers (isize / usize limits driven by the E1 generator, not proved)"]
 LEVEL_TEXT = ("Machine-checked Lean 4 theorems over all integers, bases, precisions and modes for the rounding primitives (on top of the "
               "mode tables regenerated from float/src/round.rs at every run), repr_round/with_precision (rounding contract over Rat) and "
               "the integer roundings of FBig and RBig; the hand-written part of the model is tied to /repo by differential execution "
               "over the complete primitive grid and structured floats around every branch condition of round_ops.rs.")
 LEVEL_NOTE = ("Trusted: Lean kernel; axioms propext/Classical.choice/Quot.sound; the correspondence harness and generators (sampling) "
-              "for the hand-written model; the f32 estimators only through checked enclosure hypotheses (not proved for libm's "
-              "log2f). The defect found here (split_at_point_internal's smaller-than-one shortcut) is repaired in /repo (f9ab1b6); "
-              "its witnesses stay in corpus/C10 as regression cases.")
+              "for the hand-written model; the f32 estimators: IEEE arithmetic facts proved for the concrete rounding function rne32 and "
+              "tied to the machine per case through the soft-float replica, libm's log2f accuracy assumed (exhaustively checked on the "
+              "running machine in the thorough tier). The defect found here (split_at_point_internal's smaller-than-one shortcut) is repaired in /repo (f9ab1b6); "
+              "its witnesses stay in corpus/C10 as regression cases. Open finding: exponent == isize::MIN panics (negation overflow) in "
+              "trunc/floor/ceil/round/fract/split_at_point (proposed_fixes/c10-roundops-exponent-min-negate.diff).")
 TECHNIQUE = "Lean 4 proofs over a mirrored model (regenerated decision tables + hand-written arithmetic) + differential correspondence"
